@@ -61,7 +61,7 @@ structure St where
   acqs : List Acq := []                         -- acquisitions, newest first
   pend : List Pend := []
   confirmed : List (Nat × Nat × Nat) := []      -- (part, off, time): accept/reject confirmed without error
-  openRecs : List (Nat × Nat × Nat) := []       -- (m, part, off): delivered to the application, no final ack yet
+  openRecs : List (Nat × Nat × Nat × Nat) := [] -- (m, part, off, wire batches seen at delivery): handed to the application, no final ack yet
   uncalled : List (Nat × Nat × Bool) := []      -- (m, part, a FlushAcks started since): acks whose callback has not run
   closing : List Nat := []
   closeErr : List (Nat × Nat) := []             -- (m, part): error callback while closing
@@ -142,21 +142,21 @@ def check (s : St) : Ev → Option String
   | .closeStart _ => none
   | .closed m =>
     if s.openRecs.any (fun r => r.1 == m &&
-        !(s.batches.any (fun b => b.m == m && b.part == r.2.1 && covers b.first b.last r.2.2 && b.ty == 2)) &&
+        !((s.batches.take (s.batches.length - r.2.2.2)).any (fun b => b.m == m && b.part == r.2.1 && covers b.first b.last r.2.2.1 && b.ty == 2)) &&
         !(s.closeErr.contains (m, r.2.1))) then some "C12.unacked-not-released-on-close" else none
   | .quiesce =>
     if s.pend.any (fun p => p.stage == 0 && !p.lost && s.isClosed.contains p.m) then some "C12.ack-never-sent" else none
 
 def apply (s : St) : Ev → St
   | .delivered m part off _ =>
-    { s with openRecs := (m, part, off) :: s.openRecs.filter (fun r => !(r.1 == m && r.2.1 == part && r.2.2 == off)) }
+    { s with openRecs := (m, part, off, s.batches.length) :: s.openRecs.filter (fun r => !(r.1 == m && r.2.1 == part && r.2.2.1 == off)) }
   | .ack m part off st =>
     if st == 4 then { s with uncalled := (m, part, false) :: s.uncalled }
-    else { s with openRecs := s.openRecs.filter (fun r => !(r.1 == m && r.2.1 == part && r.2.2 == off)),
+    else { s with openRecs := s.openRecs.filter (fun r => !(r.1 == m && r.2.1 == part && r.2.2.1 == off)),
                   pend := { m := m, part := part, off := off, st := st } :: s.pend,
                   uncalled := (m, part, false) :: s.uncalled }
   | .autoAccept m part off =>
-    { s with openRecs := s.openRecs.filter (fun r => !(r.1 == m && r.2.1 == part && r.2.2 == off)),
+    { s with openRecs := s.openRecs.filter (fun r => !(r.1 == m && r.2.1 == part && r.2.2.1 == off)),
              pend := { m := m, part := part, off := off, st := 1 } :: s.pend,
              uncalled := (m, part, false) :: s.uncalled }
   | .callback m part err t =>
